@@ -126,7 +126,7 @@ def run_C15(ctx, R):
     _per_config(ctx, R, tab.tab9)
     _scoped(ctx, R, tab.tab11, C15_ENTRIES, 3)
     _scoped(ctx, R, out.out5, C15_ENTRIES | {'cJSONUtils_GeneratePatches'}, 3)
-    _scoped(ctx, R, out.out7, C15_ENTRIES, 4)
+    _scoped(ctx, R, out.out7, C15_ENTRIES, 2)
     _scoped(ctx, R, utilsx.tab18, C15_ENTRIES, 1)
     _scoped(ctx, R, bnd3.bnd3_pointer, C15_ENTRIES, 30)
 
@@ -159,7 +159,7 @@ def run_C17(ctx, R):
     _per_config(ctx, R, lambda units, r: utilsx.inputs_only_relinked(units, r, roots=('create_patches',)))
     _per_config(ctx, R, _own_utils({'create_patches', 'compose_patch', 'cJSONUtils_GeneratePatches', 'cJSONUtils_GeneratePatchesCaseSensitive'}))
     _scoped(ctx, R, tab.tab20, C17_ENTRIES, 0)
-    _scoped(ctx, R, out.out7, C17_ENTRIES, 6)
+    _scoped(ctx, R, out.out7, C17_ENTRIES, 3)
     _per_config(ctx, R, tab.tab9)
     _scoped(ctx, R, out.out5, C17_ENTRIES, 3)
     _scoped(ctx, R, lst.lst1, C17_ENTRIES, 1)
